@@ -13,6 +13,7 @@ from specs.shared import UF
 
 LOCAL_PY = 'replicat/backends/local.py'
 PATH = models.opaque_type('LPath')
+PATH.lenient = True
 TMPF = models.opaque_type('NamedTemp')
 STREAM = models.opaque_type('StreamArg')
 FILE = models.opaque_type('LFile')
